@@ -28,7 +28,9 @@ pub const TEXT_VALUES: &[&str] = &["a pinch", "some", "to taste", "handful", "a 
     // text for the parser, numbers for a float parser
     "01", "+2", "1e3", "inf", "nan", "2E1", "007", "1_000",
     // ASCII digits directly followed by numerals that are not ASCII
-    "1½", "20²", "1٣", "3¼"];
+    "1½", "20²", "1٣", "3¼",
+    // dashes that are not the ASCII minus
+    "2–3", "1—2", "2‐3 big"];
 pub const INLINE_UNITS: &[&str] = &["ºC", "°F", "kg", "ml", "C", "minutes"];
 pub const INLINE_NUMS: &[&str] = &["180", "350", "2", "1.5", "0.5"];
 pub const META_KEYS: &[&str] = &[
